@@ -9,14 +9,21 @@ objects and a replay file is self-contained).  After EVERY op
     AttributeError, bytes(m) read with the independent record reader (wiregen) holds that member's number and no
     other member's, to_dict / to_pydict / to_json (all flag combinations) hold that member's key and no other
     member's, and reading the JSON back selects the same member; nested messages are checked for internal
-    consistency."""
+    consistency.
+After the WHOLE history (stage "gap", see gap_stage): the specification-side definitions the gap-closing theorems of
+Properties/C07.v are stated over - the last-writer tracker `track` and the boolean conditions `hist_ok trk_ok`,
+`forallb framed_op`, `forallb op_okb`, `hist_ok op_value_ok_p` - are evaluated inside Coq on the same operations and tied
+to the real object and to a second Python tracker; where the conditions hold, the conclusion of C07_last_writer_on_wire /
+_in_json / _readable is required of the implementation."""
 import io
 import json
 import os
 import pickle
 import random
+import re
 import struct
 import copy as pycopy
+from concurrent.futures import ThreadPoolExecutor
 from datetime import datetime, timedelta, timezone
 
 from .. import lib, msggen, histgen, wiregen
@@ -25,7 +32,8 @@ from ..msggen import Cls, Field, Elem, Schema, scalar, NBUILTIN, EPOCH
 
 IMPORTS = ("Model.Types Model.Object Model.Eq Model.Encode Model.Decode Model.History Model.Canon Model.WellFormed "
            "Model.C07Ops Model.C07Json gen.Tables")
-EXTRA_TARGETS = ["Model/Canon.vo", "Model/C07Ops.vo", "Model/C07Json.vo", "Model/WellFormed.vo"]
+EXTRA_TARGETS = ["Model/Canon.vo", "Model/C07Ops.vo", "Model/C07Json.vo", "Model/WellFormed.vo", "Model/C07GapCv.vo"]
+GAP_IMPORTS = IMPORTS + " Model.C07GapDef Model.C07GapOk Model.C07GapCv"
 
 TRUSTED = [
     "Coq 8.16.1 kernel and vm_compute (no native_compute); full .vo build via coq_makefile",
@@ -39,6 +47,14 @@ TRUSTED = [
     "(copies __dict__ recursively without betterproto's own copy code) and the independent 'member set last' tracker",
     "from_dict: the JSON-value conversion (Message._from_dict_init) is outside the model; the model starts from the converted kwargs, "
     "which the harness obtains through the public API (one single-key from_dict per key)",
+    "specification-side definitions of the gap-closing theorems (Model/C07GapDef.v track / framed_op / trk_ok, Model/C07GapOk.v op_okb, "
+    "hist_ok, op_value_ok_p): evaluated by vm_compute on every generated history (stage gap, Model/C07GapCv.v only collects the values); track is "
+    "compared with _group_current / which_one_of of the real object wherever the hypotheses of C07_track_sound evaluate to true and with a "
+    "Python last-writer tracker written from the property text on every history whose parses are framed; framed_op and op_okb are compared with "
+    "Python readings of their definitions; whenever the conditions of C07_last_writer_on_wire / _in_json / _readable hold, their conclusion is "
+    "required of the real object (schema-less record reader of this file, to_dict keys in 2-3 flag combinations, attribute reads). "
+    "hist_ok trk_ok / hist_ok op_value_ok_p have no Python counterpart: their values are taken from Coq and counted; keys_distinct (a Prop, C19's "
+    "subject) is not evaluated",
 ]
 ASSUMPTIONS = [
     "Python int is Z; str is its UTF-8 bytes; float is its binary64 pattern; aware datetimes are microseconds since the epoch",
@@ -651,9 +667,11 @@ def top_selection(schema, ci, m):
     return out
 
 
-def run_history(schema, ci, ops, ctx, count=True, rng=None):
+def run_history(schema, ci, ops, ctx, count=True, rng=None, gap=None):
     """executes ops on a real object starting from Cls(); returns (coq op literals, expected snapshots, oracle problems, selections)
-    problems: list of (step, cls, text); the history is cut after an op that raises (expected CE EOther)"""
+    problems: list of (step, cls, text); the history is cut after an op that raises (expected CE EOther).
+    gap (a dict, optional) receives n_ok = the number of operations that were applied and observed, and final = a raw clone of the
+    object after them (an operation that raises may leave the object half-changed: the clone is taken before)."""
     c = schema.classes[ci]
     m = c.py()
     exp = [None] * c.ngroups
@@ -716,6 +734,12 @@ def run_history(schema, ci, ops, ctx, count=True, rng=None):
             coq_ops.pop()
             problems.append((step, "observe-crash", f"observing the object (raw state / which_one_of / reads / bytes) raised {type(e).__name__}: {e}"))
             break
+        if gap is not None:
+            try:
+                gap["final"] = raw_clone(m)
+                gap["n_ok"] = len(coq_ops)
+            except Exception:
+                pass
         try:
             for cls_, text in oracle(schema, ci, m, exp, ctx, rng):
                 problems.append((step, cls_, text))
@@ -762,6 +786,373 @@ def shrink(schema, ci, ops, ctx, key):
 
 
 # --------------------------------------------------------------------------------------
+# stage "gap": the specification-side definitions of the gap-closing theorems (Model/C07GapDef.v, C07GapOk.v) tied to the run
+#   * the Coq last-writer tracker `track sc c ops` against (a) _group_current / which_one_of of the real object after the history
+#     and (b) the last-writer tracker below, written from the property text;
+#   * the boolean side conditions `hist_ok trk_ok`, `forallb framed_op`, `forallb op_okb`, `hist_ok op_value_ok_p` evaluated by
+#     vm_compute on the same histories (framed_op and op_okb also against Python readings of their definitions);
+#   * whenever they hold, what C07_last_writer_on_wire / _in_json / _readable state is REQUIRED of the real object: for every
+#     group, bytes(m) read by a schema-less record reader, the keys of to_dict(m) and the attribute reads name exactly the member
+#     the Python tracker names.
+# --------------------------------------------------------------------------------------
+GAP_FLAGS = ("hist_ok trk_ok", "forallb framed_op", "forallb op_okb", "hist_ok op_value_ok_p", "run7 is Ok")
+
+
+def sl_varint(bs, i):
+    """a varint is read up to and including the first byte below 128, whatever its length (no 10-byte limit)"""
+    val, shift = 0, 0
+    while True:
+        if i >= len(bs):
+            return None
+        b = bs[i]
+        i += 1
+        if b < 128:
+            return val + (b << shift), i
+        val += (b - 128) << shift
+        shift += 7
+
+
+def sl_records(bs):
+    """what a reader that knows no schema sees: [(field number, wire type)] or None; wire types 0 1 2 5 only, field number >= 1"""
+    out, i = [], 0
+    while i < len(bs):
+        r = sl_varint(bs, i)
+        if r is None:
+            return None
+        tag, i = r
+        num, wt = tag >> 3, tag & 7
+        if num < 1:
+            return None
+        if wt == 0:
+            r = sl_varint(bs, i)
+            if r is None:
+                return None
+            i = r[1]
+        elif wt == 1:
+            i += 8
+        elif wt == 5:
+            i += 4
+        elif wt == 2:
+            r = sl_varint(bs, i)
+            if r is None:
+                return None
+            i = r[1] + r[0]
+        else:
+            return None
+        if i > len(bs):
+            return None
+        out.append((num, wt))
+    return out
+
+
+def lw_track(schema, ci, ops):
+    """the member of every group that the history set last, read off the operations alone (property text: "which_one_of names the
+    member set last (or none)"; constructor arguments count in declaration order, dict loads into an existing message in dict order,
+    a decode in stream order).  Returns a list (per group) of field index | None, or the string 'unframed' when a decode was given
+    bytes that are not a sequence of records (the text says nothing about those)."""
+    import betterproto as bp
+    c = schema.classes[ci]
+    last = [None] * c.ngroups
+
+    def given_ctor(indices):
+        sel = [None] * c.ngroups
+        for i, f in enumerate(c.fields):
+            if f.group is not None and i in indices:
+                sel[f.group] = i
+        return sel
+
+    for op in ops:
+        k = op["k"]
+        if k == "construct":
+            names = {n for n, v in op["kw"].items() if dec_val(schema, v) is not bp.PLACEHOLDER}
+            last = given_ctor({i for i, f in enumerate(c.fields) if f.name in names})
+        elif k == "fromdict":
+            kw = fromdict_kwargs(schema, ci, op["d"])
+            if op["inst"]:
+                for i, _ in kw:
+                    if c.fields[i].group is not None:
+                        last[c.fields[i].group] = i
+            else:
+                last = given_ctor({i for i, _ in kw})
+        elif k == "set":
+            if not op["path"] and c.fields[op["i"]].group is not None:
+                last[c.fields[op["i"]].group] = op["i"]
+        elif k == "parse":
+            recs = sl_records(bytes.fromhex(op["bs"]))
+            if recs is None:
+                return "unframed"
+            for num, wt in recs:
+                hit = None
+                for i, f in enumerate(c.fields):
+                    if f.number == num:
+                        hit = (i, f)
+                if hit and hit[1].group is not None and wt == WT[hit[1].proto_type]:
+                    last[hit[1].group] = hit[0]
+    return last
+
+
+def py_framed(ops):
+    return all(sl_records(bytes.fromhex(op["bs"])) is not None for op in ops if op["k"] == "parse")
+
+
+def py_op_ok(schema, ci, ops):
+    """every value handed to a oneof member (assignment, keyword argument, dict entry) is a value: not None, not a list, not a dict"""
+    c = schema.classes[ci]
+
+    def bad(i, v):
+        return c.fields[i].group is not None and (v is None or isinstance(v, (list, dict)))
+    names = [f.name for f in c.fields]
+    for op in ops:
+        k = op["k"]
+        if k == "set" and not op["path"] and bad(op["i"], dec_val(schema, op["v"])):
+            return False
+        if k == "construct" and any(bad(names.index(n), dec_val(schema, v)) for n, v in op["kw"].items()):
+            return False
+        if k == "fromdict" and any(bad(i, v) for i, v in fromdict_kwargs(schema, ci, op["d"])):
+            return False
+    return True
+
+
+def coq_values(ctx, name, imports, exprs, prelude="", chunk=24, workers=None):
+    """exprs: Gallina expressions of type list Z; returns their values (vm_compute inside Coq, sharded), fails closed"""
+    if not exprs:
+        return []
+    lib.ensure_built(imports)
+
+    def one(args):
+        path, part = args
+        with open(path, "w") as f:
+            f.write(f"From BP Require Import Base.Prelude {imports}.\nSet Printing Depth 1000000.\nSet Printing Width 1000.\n")
+            f.write(prelude + "\n")
+            f.write("Definition gapexprs : list (list Z) := [\n" + ";\n".join(part) + "\n].\n")
+            f.write("Definition gapvals := Eval vm_compute in gapexprs.\nPrint gapvals.\n")
+        rc, out = lib.run(["coqc", "-Q", lib.COQ, "BP", path], timeout=1800)
+        if rc != 0:
+            raise RuntimeError(f"evaluation of the side conditions failed in {name}: {out[-3000:]}")
+        mm = re.search(r"gapvals\s*=\s*(.*?)\s*:\s*list \(list Z\)", out, re.S)
+        if not mm or "..." in mm.group(1):
+            raise RuntimeError(f"evaluation of the side conditions: unreadable answer in {name}: {out[-2000:]}")
+        rows = [[int(x) for x in re.findall(r"-?\d+", r)] for r in re.findall(r"\[([^\[\]]*)\]", mm.group(1).replace("%Z", ""))]
+        if len(rows) != len(part):
+            raise RuntimeError(f"evaluation of the side conditions: {len(part)} expressions but {len(rows)} answers in {name}")
+        return rows
+    jobs = [(os.path.join(ctx.work, f"{name}_{k}.v"), exprs[st:st + chunk]) for k, st in enumerate(range(0, len(exprs), chunk))]
+    vals = []
+    with ThreadPoolExecutor(max_workers=workers or lib.JOBS) as ex:
+        for rows in ex.map(one, jobs):
+            vals.extend(rows)
+    return vals
+
+
+def gap_observe(schema, ci, fin):
+    """the real object after the history, per group: (_group_current, which_one_of, members whose number is among the records of
+    bytes(m), {label: members whose key is in to_dict(...)}, readable members) - names; None where not obtainable"""
+    import betterproto as bp
+    c = schema.classes[ci]
+    try:
+        recs = sl_records(bytes(raw_clone(fin)))
+        nums = None if recs is None else {n for n, _ in recs}
+        unreadable = recs is None
+    except Exception:
+        nums, unreadable = None, False
+    dicts = {}
+    variants = [("to_dict()", {}), ("to_dict(casing=SNAKE)", {"casing": bp.Casing.SNAKE})]
+    if not is_recursive(schema, ci):
+        variants.append(("to_dict(include_default_values=True)", {"include_default_values": True}))
+    for label, flags in variants:
+        try:
+            dicts[label] = (flags.get("casing", bp.Casing.CAMEL), raw_clone(fin).to_dict(**flags))
+        except Exception:
+            pass
+    cur = object.__getattribute__(fin, "_group_current")
+    out = []
+    for g in range(c.ngroups):
+        mem = [f for f in c.fields if f.group == g]
+        try:
+            which = bp.which_one_of(raw_clone(fin), f"g{g}")[0]
+        except Exception as e:
+            which = f"<raises {type(e).__name__}>"
+        out.append({"cur": cur.get(f"g{g}") or "", "which": which,
+                    "bytes": None if nums is None else sorted(f.name for f in mem if f.number in nums),
+                    "json": {label: sorted(f.name for f in mem if casing(f.name).rstrip("_") in d) for label, (casing, d) in dicts.items()},
+                    "read": sorted(f.name for f in mem if readable(fin, f.name))})
+    return out, unreadable
+
+
+# hand-written histories for this stage only (class One of c07_schema; they do not go through the per-step oracle, whose tracker
+# comparison is unconditional): the side of every condition that random histories rarely or never reach, with the value the
+# condition must take.  The first is the witness of C07_pickle_selection_refuted run on the real implementation.
+GAP_CORPUS = [
+    ("none-then-pickle", [{"k": "set", "path": [], "i": 0, "v": None}, {"k": "pickle"}],
+     {"forallb op_okb": False, "hist_ok trk_ok": False, "forallb framed_op": True}),
+    ("ctor-none", [{"k": "construct", "kw": {"a": None, "t": 3}}, {"k": "copy"}],
+     {"forallb op_okb": False, "forallb framed_op": True}),
+    ("group-wire-type", [{"k": "set", "path": [], "i": 1, "v": "x"}, {"k": "parse", "bs": "0b0c"}],
+     {"forallb framed_op": False, "hist_ok trk_ok": False, "forallb op_okb": True}),
+    ("default-then-pickle", [{"k": "set", "path": [], "i": 0, "v": 0}, {"k": "pickle"}, {"k": "set", "path": [], "i": 5, "v": False}],
+     {"forallb op_okb": True, "hist_ok trk_ok": True, "forallb framed_op": True, "hist_ok op_value_ok_p": True}),
+]
+GAP_EXPECT = {"gap-corpus:" + n: e for n, _, e in GAP_CORPUS}
+
+
+def gap_corpus_items(ctx, schemas, kept):
+    si = next((i for i, d in enumerate(kept) if d["kind"] == "c07"), None)
+    if si is None:
+        return []
+    s = schemas[si]
+    ci = [c.name for c in s.classes].index("One")
+    items = []
+    for name, ops, _ in GAP_CORPUS:
+        m = s.classes[ci].py()
+        done, lits = [], []
+        for op in ops:
+            try:
+                lit = coq_op7(s, ci, op)
+                m2, _out = apply7(s, ci, raw_clone(m), op)
+            except Exception as e:
+                ctx.count(f"gap:corpus_op_raises:{name}:{op['k']}:{type(e).__name__}")
+                break
+            m = m2
+            done.append(op)
+            lits.append(lit)
+        if done:
+            items.append((si, ci, done, lits, raw_clone(m), "gap-corpus:" + name))
+            ctx.count("gap:corpus_histories")
+    return items
+
+
+def gap_stage(ctx, schemas, kept, items, prelude, count=True, name="c07gap"):
+    """items: [(si, ci, ops, coq op literals, final object, origin)]; returns the list of failures (kind, cls, what, input)"""
+    fails = []
+    if not items:
+        return fails
+    sis = sorted({it[0] for it in items})
+    exprs = [f"gap_schema sc{si}" for si in sis]
+    exprs += [f"gap_eval sc{si} {ci + NBUILTIN}%nat [{'; '.join(coq_ops)}]" for si, ci, ops, coq_ops, fin, origin in items]
+    vals = coq_values(ctx, name, GAP_IMPORTS, exprs, prelude=prelude, chunk=24, workers=max(2, lib.JOBS // 2))
+    schema_ok = {si: bool(v[0]) for si, v in zip(sis, vals)}
+    vals = vals[len(sis):]
+
+    def cnt(key, n=1):
+        if count:
+            ctx.count("gap:" + key, n)
+
+    def inp(si, ci, ops, origin, **kw):
+        s = schemas[si]
+        d = {"schema": kept[si], "class": ci, "class_name": s.classes[ci].name, "fields": s.describe()[s.classes[ci].name], "ops": ops,
+             "origin": origin, "stage": "gap"}
+        d.update(kw)
+        return d
+    for si in sis:
+        cnt("schema:c01_schema_ok:" + ("held" if schema_ok[si] else "violated"))
+    for (si, ci, ops, coq_ops, fin, origin), v in zip(items, vals):
+        s = schemas[si]
+        c = s.classes[ci]
+        names = [f.name for f in c.fields]
+        if len(v) != len(GAP_FLAGS) + c.ngroups:
+            fails.append(("corr", None, f"track sc c ops has {len(v) - len(GAP_FLAGS)} entries but the class has {c.ngroups} oneof groups",
+                          inp(si, ci, ops, origin)))
+            continue
+        t_ok, framed, okb, val_ok, run_ok = (bool(x) for x in v[:len(GAP_FLAGS)])
+        coq_trk = [names[x - 1] if x else "" for x in v[len(GAP_FLAGS):]]
+        cnt("histories_evaluated")
+        for label, b in zip(GAP_FLAGS, (t_ok, framed, okb, val_ok, run_ok)):
+            cnt(f"cond:{label}:" + ("held" if b else "violated"))
+        for label, b in zip(GAP_FLAGS, (t_ok, framed, okb, val_ok, run_ok)):
+            want_b = GAP_EXPECT.get(origin, {}).get(label)
+            if want_b is not None and len(ops) == len(next(o for n, o, _ in GAP_CORPUS if "gap-corpus:" + n == origin)):
+                cnt("corpus_condition_values_checked")
+                if want_b != b:
+                    fails.append(("corr", None, f"condition {label} evaluates to {b} on the hand-written history {origin}, which must "
+                                  f"{'meet' if want_b else 'violate'} it", inp(si, ci, ops, origin)))
+        if not run_ok:
+            fails.append(("corr", None, "run7 of the model is Err on a history every operation of which succeeded on the implementation",
+                          inp(si, ci, ops, origin)))
+            continue
+        # ---- Python readings of the two conditions that are functions of the operations alone
+        try:
+            pf, pk = py_framed(ops), py_op_ok(s, ci, ops)
+        except Exception as e:
+            fails.append(("corr", None, f"evaluating the conditions on the Python side raised {type(e).__name__}: {e}", inp(si, ci, ops, origin)))
+            continue
+        cnt("conditions_compared_with_python_reading", 2)
+        if pf != framed:
+            fails.append(("corr", None, f"forallb framed_op is {framed} in Coq but the Python schema-less reader says {pf}", inp(si, ci, ops, origin)))
+        if pk != okb:
+            fails.append(("corr", None, f"forallb op_okb is {okb} in Coq but the Python reading of the condition says {pk}", inp(si, ci, ops, origin)))
+        # ---- the trackers
+        try:
+            py_trk = lw_track(s, ci, ops)
+        except Exception as e:
+            fails.append(("corr", None, f"the Python last-writer tracker raised {type(e).__name__}: {e}", inp(si, ci, ops, origin)))
+            continue
+        if py_trk == "unframed":
+            cnt("track_vs_python_tracker:skipped(unframed parse)")
+            py_names = None
+        else:
+            py_names = [names[i] if i is not None else "" for i in py_trk]
+            cnt("track_vs_python_tracker:compared")
+            cnt("track_vs_python_tracker:groups", c.ngroups)
+            if py_names != coq_trk:
+                fails.append(("corr", None, "the Coq last-writer tracker (track, Model/C07GapDef.v) and the Python last-writer tracker disagree",
+                              inp(si, ci, ops, origin, coq_track=coq_trk, python_tracker=py_names)))
+        try:
+            obs, unreadable = gap_observe(s, ci, fin)
+        except Exception as e:
+            fails.append(("oracle", "gap-observe", f"observing the object after the history raised {type(e).__name__}: {e}", inp(si, ci, ops, origin)))
+            continue
+        impl_cur = [o["cur"] for o in obs]
+        impl_which = [o["which"] for o in obs]
+        thm_track = schema_ok[si] and t_ok                 # hypotheses of C07_track_sound
+        if thm_track:
+            cnt("track_vs_group_current:compared(hypotheses of C07_track_sound hold)")
+            cnt("track_vs_group_current:groups", c.ngroups)
+            if impl_cur != coq_trk or impl_which != coq_trk:
+                fails.append(("corr", None, "hist_ok trk_ok holds but the Coq last-writer tracker (track) differs from _group_current / which_one_of "
+                              "of the real object after the history (C07_track_sound)",
+                              inp(si, ci, ops, origin, coq_track=coq_trk, group_current=impl_cur, which_one_of=impl_which)))
+        else:
+            same = impl_cur == coq_trk and impl_which == coq_trk
+            why = "a parse is not framed: the tracker skips it" if not framed else "pickle condition, cf. C07_pickle_selection_refuted"
+            cnt("track_vs_group_current:outside the hypotheses:" + ("agree" if same else f"DIFFER (allowed; {why})"))
+            if not same and framed and py_names is not None and py_names == coq_trk and count:
+                # both trackers say one thing and the object another although every parse is framed: the implementation shows the
+                # behaviour of the refuting witness (a selection lost in a pickle round trip); recorded, not a failure of this stage
+                ctx.sample({"gap": "selection differs from the last writer outside hist_ok trk_ok", "class": c.name,
+                            "ops": [o["k"] for o in ops], "tracker": coq_trk, "which_one_of": impl_which})
+        # ---- the composed statements, required of the implementation
+        need = schema_ok[si] and framed and okb and (t_ok or val_ok)
+        cnt("cond:all(c01_schema_ok, trk_ok | op_value_ok_p, framed_op, op_okb):" + ("held" if need else "violated"))
+        if val_ok and framed and not t_ok:
+            cnt("cond:op_value_ok_p and framed_op but not trk_ok")
+        if not need or py_names is None:
+            continue
+        cnt("last_writer_oracle:histories")
+        for g, o in enumerate(obs):
+            want = [py_names[g]] if py_names[g] else []
+            cnt("last_writer_oracle:groups")
+            if unreadable:
+                fails.append(("oracle", "gap-bytes", "bytes(m) after the history is not a sequence of records for the schema-less reader",
+                              inp(si, ci, ops, origin)))
+                break
+            if o["bytes"] is not None:
+                cnt("last_writer_oracle:bytes_checked")
+                if o["bytes"] != want:
+                    fails.append(("oracle", "gap-bytes", f"group g{g}: the history set {py_names[g]!r} last but the records of bytes(m) hold members "
+                                  f"{o['bytes']} (C07_last_writer_on_wire, all boolean conditions hold)", inp(si, ci, ops, origin, tracker=py_names)))
+            for label, present in o["json"].items():
+                cnt("last_writer_oracle:to_dict_checked")
+                if present != want:
+                    fails.append(("oracle", "gap-json", f"group g{g}: the history set {py_names[g]!r} last but {label} holds keys of members {present} "
+                                  "(C07_last_writer_in_json, all boolean conditions hold)", inp(si, ci, ops, origin, tracker=py_names)))
+            cnt("last_writer_oracle:reads_checked")
+            if o["read"] != want:
+                fails.append(("oracle", "gap-read", f"group g{g}: the history set {py_names[g]!r} last but the readable members are {o['read']} "
+                              "(C07_last_writer_readable, all boolean conditions hold)", inp(si, ci, ops, origin, tracker=py_names)))
+    return fails
+
+
+# --------------------------------------------------------------------------------------
 def corpus_histories():
     p = os.path.join(lib.VERIF, "corpus", "C07-regress.json")
     if not os.path.exists(p):
@@ -793,9 +1184,14 @@ def run(ctx):
         pairs.append((f"cbool (wf_schema sc{si})", cbool(True)))
         meta.append(("wf", si, None, None, None))
 
+    gap_items = []
+
     def do_history(si, ci, ops, origin):
         s = schemas[si]
-        coq_ops, snaps, problems, sels = run_history(s, ci, ops, ctx, rng=rng)
+        gap = {}
+        coq_ops, snaps, problems, sels = run_history(s, ci, ops, ctx, rng=rng, gap=gap)
+        if gap.get("n_ok"):
+            gap_items.append((si, ci, ops[:gap["n_ok"]], coq_ops[:gap["n_ok"]], gap["final"], origin))
         ctx.cov["evaluations"] += len(snaps)
         changes = sum(1 for a, b in zip([tuple([None] * s.classes[ci].ngroups)] + sels, sels) if a != b)
         if changes >= 2:
@@ -855,7 +1251,27 @@ def run(ctx):
         if ops:
             do_history(si, ci, ops, f"random:{hidx}")
 
-    bad = lib.coq_compare(ctx, "c07", IMPORTS, pairs, chunk=24, prelude=prelude)
+    # stage "gap" runs beside the correspondence (its Coq evaluations are independent of it)
+    try:
+        gap_items.extend(gap_corpus_items(ctx, schemas, kept))
+    except Exception as e:
+        ctx.fail("corr", f"the hand-written histories of stage gap could not be run: {type(e).__name__}: {e}", no_input=True,
+                 theorem_or_correspondence="stage gap")
+    lib.ensure_built(GAP_IMPORTS)
+    with ThreadPoolExecutor(max_workers=1) as gap_ex:
+        gap_future = gap_ex.submit(gap_stage, ctx, schemas, kept, gap_items, prelude)
+        try:
+            bad = lib.coq_compare(ctx, "c07", IMPORTS, pairs, chunk=24, prelude=prelude)
+        finally:
+            gap_fails = gap_future.result()
+    seen_gap = {}
+    for kind, cls_, what, inp in gap_fails:
+        key = (kind, cls_, what.split(":")[0][:60])
+        seen_gap[key] = seen_gap.get(key, 0) + 1
+        ctx.count(f"gap:disagreements:{kind}:{cls_ or what.split(' (')[0][:90]}")
+        if seen_gap[key] <= 3:
+            ctx.fail(kind, what, cls=cls_, input=inp)
+    ctx.count("gap:disagreements", len(gap_fails))
     for i in bad[:6]:
         kind, si, ci, ops, extra = meta[i]
         if kind == "wf":
@@ -880,7 +1296,7 @@ def run(ctx):
                  input={"schema": kept[si], "class": ci, "class_name": schemas[si].classes[ci].name, "ops": ops,
                         "first_differing_step": where, "op_there": ops[where] if where is not None and where < len(ops) else None,
                         "implementation": snaps[where][:3000] if where is not None else None, "model": model_says})
-    ctx.cov["disagreements_checked"] = len(pairs)
+    ctx.cov["disagreements_checked"] = len(pairs) + len(gap_items)
     for s in schemas:
         s.dispose()
 
@@ -891,7 +1307,10 @@ def finish(ctx):
         "Coq theorems (invariant over all finite histories, last-wins, record-level exclusivity of the encoding, parse selects the last member) "
         "over the Gallina mirror of Message.__post_init__/__getattribute__/__setattr__/dump/load/__copy__/__deepcopy__/__reduce__ "
         "+ executable correspondence (vm_compute) with the implementation after every operation of every generated history "
-        "+ the property evaluated on the real objects against an independent tracker",
+        "+ the property evaluated on the real objects against an independent tracker "
+        "+ stage gap: the Coq last-writer tracker and the boolean side conditions of the gap-closing theorems evaluated on the same histories, "
+        "compared with the real object and a Python tracker, and the composed last-writer statements required of the implementation wherever "
+        "the conditions hold (counts under input_distribution gap:*)",
         ASSUMPTIONS, TRUSTED, RULE,
         extra_cov={"explanation": "theorems are unbounded (all schemas, all classes, all finite histories); the correspondence and the oracle sample histories"})
 
@@ -907,10 +1326,27 @@ def replay(ctx, obj):
     print("class", s.classes[ci].name, s.describe()[s.classes[ci].name])
     for op in inp["ops"]:
         print("  op", json.dumps(op)[:300])
-    coq_ops, snaps, problems, sels = run_history(s, ci, inp["ops"], ctx, count=False)
+    gap = {}
+    coq_ops, snaps, problems, sels = run_history(s, ci, inp["ops"], ctx, count=False, gap=gap)
     for step, cls_, text in problems:
         print(f"still failing at step {step} [{cls_}]: {text}")
     rc = 1 if problems else 0
+    if gap.get("n_ok"):
+        n = gap["n_ok"]
+        try:
+            gf = gap_stage(ctx, [s], [inp["schema"]], [(0, ci, inp["ops"][:n], coq_ops[:n], gap["final"], "replay")],
+                           f"Definition sc0 : schema := {s.coq()}.", count=False, name="c07gapreplay")
+        except RuntimeError as e:
+            print("stage gap could not be evaluated:", str(e)[-500:])
+            gf = [("corr", None, "not evaluated", {})]
+        for kind, cls_, what, gi in gf:
+            print(f"stage gap still failing [{kind}{'/' + cls_ if cls_ else ''}]: {what}")
+            for k in ("coq_track", "python_tracker", "group_current", "which_one_of", "tracker"):
+                if k in gi:
+                    print(f"    {k}: {gi[k]}")
+        if not gf:
+            print("stage gap (Coq tracker / side conditions / last-writer statements) passes on this history")
+        rc = rc or (1 if gf else 0)
     if coq_ops:
         prelude = f"Definition sc0 : schema := {s.coq()}."
         model = f"CL (trace7j {incl_ok(s, ci)} sc0 (new sc0 {ci + NBUILTIN}%nat) [{'; '.join(coq_ops)}])"
